@@ -511,6 +511,19 @@ struct SackOutcome {
     max_reported: u32,
 }
 
+/// Oldest TSN in the sent queue in serial-number order. The queue is keyed by
+/// raw TSN; once it straddles the 2^32 wrap the numerically smallest key is no
+/// longer the oldest chunk.
+fn oldest_outstanding_tsn(sent_queue: &BTreeMap<u32, ChunkRecord>) -> Option<u32> {
+    match (sent_queue.keys().next(), sent_queue.keys().next_back()) {
+        (Some(&first), Some(&last)) if last.wrapping_sub(first) > 0x7FFF_FFFF => {
+            sent_queue.range(0x8000_0000u32..).next().map(|(k, _)| *k)
+        }
+        (Some(&first), _) => Some(first),
+        _ => None,
+    }
+}
+
 fn apply_sack_to_sent_queue(
     sent_queue: &mut BTreeMap<u32, ChunkRecord>,
     cumulative_tsn_ack: u32,
@@ -522,15 +535,7 @@ fn apply_sack_to_sent_queue(
     let before_head = sent_queue.keys().next().cloned();
 
     // 0. Filter out late SACKs
-    // The queue is keyed by raw TSN; once it straddles the 2^32 wrap the
-    // numerically smallest key is no longer the oldest chunk.
-    let oldest_tsn = match (sent_queue.keys().next(), sent_queue.keys().next_back()) {
-        (Some(&first), Some(&last)) if last.wrapping_sub(first) > 0x7FFF_FFFF => {
-            sent_queue.range(0x8000_0000u32..).next().map(|(k, _)| *k)
-        }
-        (Some(&first), _) => Some(first),
-        _ => None,
-    };
+    let oldest_tsn = oldest_outstanding_tsn(sent_queue);
     if let Some(lowest_tsn) = oldest_tsn
         && (cumulative_tsn_ack.wrapping_sub(lowest_tsn.wrapping_sub(1)) as i32) < 0
     {
@@ -1895,7 +1900,22 @@ impl SctpInner {
             let a_rwnd = buf.get_u32();
             let num_gap_ack_blocks = buf.get_u16();
             let _num_duplicate_tsns = buf.get_u16();
-            let old_rwnd = self.peer_rwnd.swap(a_rwnd, Ordering::SeqCst);
+            // RFC 4960 §6.2.1 D-i: a SACK whose cumulative ack lies behind what
+            // has already been acknowledged was overtaken on the way; its
+            // window advertisement is out of date and must not replace a newer one.
+            let stale_sack = {
+                let sent_queue = self.sent_queue.lock();
+                let cum_ack_point = match oldest_outstanding_tsn(&sent_queue) {
+                    Some(oldest) => oldest.wrapping_sub(1),
+                    None => self.next_tsn.load(Ordering::SeqCst).wrapping_sub(1),
+                };
+                (cumulative_tsn_ack.wrapping_sub(cum_ack_point) as i32) < 0
+            };
+            let old_rwnd = if stale_sack {
+                self.peer_rwnd.load(Ordering::SeqCst)
+            } else {
+                self.peer_rwnd.swap(a_rwnd, Ordering::SeqCst)
+            };
 
             // Log peer_rwnd to understand flow control
             if a_rwnd < 100000 {
